@@ -251,7 +251,7 @@ func (x *Exec) jsonConvert0(v Value, st, dt types.Type, fold bool) (Value, bool)
 	}
 	// a JSON object held as a Go map decoded into a struct: members are matched to fields by JSON name — exactly,
 	// or (fold: encoding/json's default) ignoring letter case when there is no exact match; later members overwrite
-	if mt, isMap := st.Underlying().(*types.Map); isMap {
+	if mt, isMap := st.Underlying().(*types.Map); isMap && isStructType(dt) {
 		ds, isStruct := dt.Underlying().(*types.Struct)
 		mv, _ := v.(*MapV)
 		if !isStruct {
@@ -2171,4 +2171,9 @@ func (x *Exec) storeDecoded(p *Pointer, val Value, dt types.Type) {
 		}
 	}
 	x.store(p, val)
+}
+
+func isStructType(t types.Type) bool {
+	_, ok := t.Underlying().(*types.Struct)
+	return ok
 }
